@@ -138,6 +138,9 @@ class World(SessionWorld):
         waiting = [r for r in self.pending_unsubs if self.unsub_futs.get(r) is not None]
         if waiting and self.ops_left > 0:
             acts.append((0.8, "app-gives-up-waiting", lambda: self.give_up_waiting(waiting)))
+        waiting_subs = [r for r, h in self.pending_subs.items() if getattr(h, "fut", None) is not None and not getattr(h, "gave_up", False)]
+        if waiting_subs and self.ops_left > 0:
+            acts.append((0.8, "app-gives-up-waiting-for-SUBSCRIBED", lambda: self.give_up_subscribing(waiting_subs)))
         if any(self.router_active.values()) or self.model:
             acts.append((4.0, "event", self.router_event))
         if self.ops_left > 0:
@@ -153,6 +156,21 @@ class World(SessionWorld):
         self.run.fault("unsubscribe-wait-cancelled")
         try:
             self.fw.call(self, self.fw.cancel_future, f)
+        except Exception as e:  # noqa
+            self.run.log("cancel-raised", type(e).__name__)
+        self.settle()
+
+    def give_up_subscribing(self, waiting):
+        """the application stops waiting for a SUBSCRIBED (timeout, cancelled task) and cancels the pending result: it
+        never gets a Subscription, so its handler is not attached - whatever the router answers later.  (It may well
+        subscribe again: the router then names the same subscription id.)"""
+        rid = self.run.ch.pick(sorted(waiting), "which-sub-wait")
+        h = self.pending_subs[rid]
+        h.gave_up = True
+        self.ops_left -= 1
+        self.run.fault("subscribe-wait-cancelled")
+        try:
+            self.fw.call(self, self.fw.cancel_future, h.fut)
         except Exception as e:  # noqa
             self.run.log("cancel-raised", type(e).__name__)
         self.settle()
@@ -175,6 +193,7 @@ class World(SessionWorld):
         n0 = len(self.t.sent)
         opts = types.SubscribeOptions(details_arg="details") if h.details else None
         fut = self.call(self.session.subscribe, self.make_fn(h), topic, opts)
+        h.fut = fut
         h.w = self.fw.watch(fut)
         self.settle()
         new = self.t.sent[n0:]
@@ -287,6 +306,11 @@ class World(SessionWorld):
             self.settle()
             if exc is not None:
                 self.run.violate("C11.isolation", "legal-reply-raised:%s" % type(exc).__name__, repr(exc))
+                return
+            if getattr(h, "gave_up", False):
+                # the late reply to a request the application has given up on: nothing is attached by it (the scripted
+                # router sends no EVENT on the strength of this subscription alone)
+                self.run.probe("late-SUBSCRIBED-for-abandoned-request")
                 return
             self.router_active[sid] = True
             self.ever_held.add(sid)
